@@ -23,7 +23,28 @@ type TOp struct {
 	CP2 bool   `json:"cp2,omitempty"` // A: first entry of a 2-batch is a checkpoint too
 	Min uint64 `json:"min,omitempty"`
 	Max uint64 `json:"max,omitempty"`
+	// A: the store under the middleware fails this StoreLogs once, storing nothing; the caller then
+	// submits the same entries again (as raft does). The twin sees one successful append.
+	Fail bool `json:"fail,omitempty"`
 }
+
+// failOnceStore fails the next StoreLogs when armed.
+type failOnceStore struct {
+	raft.LogStore
+	fail   bool
+	closer func() error
+}
+
+func (f *failOnceStore) StoreLogs(logs []*raft.Log) error {
+	if f.fail {
+		f.fail = false
+		return errors.New("injected store failure")
+	}
+	return f.LogStore.StoreLogs(logs)
+}
+
+func (f *failOnceStore) StoreLog(l *raft.Log) error { return f.StoreLogs([]*raft.Log{l}) }
+func (f *failOnceStore) Close() error               { return f.closer() }
 
 func (o TOp) String() string {
 	if o.K == "D" {
@@ -38,6 +59,9 @@ func (o TOp) String() string {
 	}
 	if o.CP2 {
 		s += ",cp2"
+	}
+	if o.Fail {
+		s += ",fail+retry"
 	}
 	return s + ")"
 }
@@ -81,7 +105,8 @@ func RunTwin(ops []TOp, cfg Config) *TwinResult {
 		}
 		mc := metrics.NewAtomicCollector(verifier.MetricDefinitions)
 		var reports []verifier.VerificationReport
-		v := verifier.NewLogStore(a.W, isCheckpoint, func(r verifier.VerificationReport) { reports = append(reports, r) }, mc)
+		fs := &failOnceStore{LogStore: a.W, closer: a.W.Close}
+		v := verifier.NewLogStore(fs, isCheckpoint, func(r verifier.VerificationReport) { reports = append(reports, r) }, mc)
 		submittedEmptyCP := map[uint64]bool{}
 		type cpr struct{ start, end uint64 }
 		var cps []cpr
@@ -132,6 +157,21 @@ func RunTwin(ops []TOp, cfg Config) *TwinResult {
 					}
 					l1 = append(l1, l)
 					l2 = append(l2, cloneLog(l))
+				}
+				if op.Fail && !refuse {
+					fs.fail = true
+					first := make([]*raft.Log, len(l1))
+					for i, l := range l1 {
+						first[i] = cloneLog(l)
+					}
+					if err := v.StoreLogs(first); err == nil {
+						bad("step %d %s: the store failed the call but the middleware returned nil", si+1, op)
+					}
+					fs.fail = false
+					vsched.Quiesce()
+					if lf, _ := v.LastIndex(); lf != last {
+						bad("step %d %s: LastIndex is %d after a StoreLogs that failed (was %d)", si+1, op, lf, last)
+					}
 				}
 				e1 = v.StoreLogs(l1)
 				if refuse {
@@ -257,6 +297,13 @@ type BlockedResult struct {
 // the report callback blocks on a gate that an opener thread opens at a point
 // the scheduler chooses (or never, if open is false).
 func RunBlockedReport(ch vsched.Chooser, nCP int, open bool) (*vsched.Result, *BlockedResult) {
+	return RunBlockedReportT(ch, nCP, open, false)
+}
+
+// RunBlockedReportT: with trunc, the writer afterwards truncates the last checkpoint off the tail (while its
+// report may still be queued or running) and stores another checkpoint at that index: one more checkpoint,
+// and the truncated one still has to be accounted for.
+func RunBlockedReportT(ch vsched.Chooser, nCP int, open, trunc bool) (*vsched.Result, *BlockedResult) {
 	out := &BlockedResult{}
 	bad := func(f string, a ...interface{}) {
 		out.Viol = append(out.Viol, Violation{Prop: "C18", Msg: fmt.Sprintf(f, a...)})
@@ -284,6 +331,18 @@ func RunBlockedReport(ch vsched.Chooser, nCP int, open bool) (*vsched.Result, *B
 				}
 				written++
 			}
+			if trunc {
+				if err := v.DeleteRange(uint64(nCP), uint64(nCP)); err != nil {
+					bad("DeleteRange(%d,%d) failed: %v", nCP, nCP, err)
+					return
+				}
+				l := &raft.Log{Index: uint64(nCP), Term: 2, Type: raft.LogCommand, Data: []byte(fmt.Sprintf("CP%d again", nCP))}
+				if err := v.StoreLogs([]*raft.Log{l}); err != nil {
+					bad("StoreLogs(%d) after the truncation failed: %v", nCP, err)
+					return
+				}
+				written++
+			}
 		})
 		if open {
 			vsched.Spawn("opener", func() {
@@ -293,6 +352,9 @@ func RunBlockedReport(ch vsched.Chooser, nCP int, open bool) (*vsched.Result, *B
 		}
 		vsched.WaitThreads()
 		vsched.SetRecording(false)
+		if trunc {
+			nCP++
+		}
 		if written != nCP {
 			bad("writer stored %d of %d checkpoints", written, nCP)
 		}
@@ -303,7 +365,9 @@ func RunBlockedReport(ch vsched.Chooser, nCP int, open bool) (*vsched.Result, *B
 			if len(reports)+dropped != nCP {
 				bad("%d checkpoints, %d reports delivered + %d counted drops", nCP, len(reports), dropped)
 			}
-			checkSkips(reports, bad)
+			if !trunc {
+				checkSkips(reports, bad)
+			}
 		} else {
 			// gate never opens: one report is stuck inside the callback, at most one waits in the channel
 			if len(reports) != 0 {
